@@ -3,6 +3,7 @@ Helper lemmas for the MTVRP reward: routes contain no depot visits; legs into no
 in full by `_get_reward`'s mask `~((go_to == 0) & open_route)`.  No Mathlib.
 -/
 import Rl4co.Env.Mtvrp
+import Rl4co.Proofs.MtvrpParams
 import Rl4co.Spec.Mtvrp
 
 namespace Rl4co.Mtvrp
@@ -38,7 +39,7 @@ theorem pathLen_charged_of_no_zero (i : Inst) : ∀ (x : Nat) (xs : List Nat), 0
     have hy : y ≠ 0 := fun e => h (by simp [e])
     have := pathLen_charged_of_no_zero i y ys (fun e => h (by simp [e]))
     rw [pathLen_cons_cons, pathLen_cons_cons, this]
-    simp [charged, hy]
+    simp [charged_def, hy]
 
 theorem routeLen_charged (i : Inst) (r : List Nat) (h : 0 ∉ r) : routeLen (charged i) r = routeCost i r := by
   unfold routeLen routeCost
@@ -50,7 +51,7 @@ theorem routeLen_charged (i : Inst) (r : List Nat) (h : 0 ∉ r) : routeLen (cha
     cases ho : i.openR
     · simp only [Bool.false_eq_true, if_false]
       rw [e, pathLen_append_singleton]
-      simp [charged, ho]
-    · simp [charged, ho]
+      simp [charged_def, ho]
+    · simp [charged_def, ho]
 
 end Rl4co.Mtvrp
